@@ -463,12 +463,42 @@ def mon_steal_protocol(run):
     return out
 
 
+# ------------------------------------------------------------------ C15
+def mon_requeue(run):
+    """the hook sees the report before it is published; a re-queued test is dispatched ahead of
+    every other unassigned test"""
+    out = []
+    ref = run.cfg["coll"]
+    budget = run.cfg["requeue"] if run.mode in ("load", "worksteal") else 0
+    seen_items = 0
+    expect = None
+    offered = None          # crash item handed to pytest_handlecrashitem, report not yet published
+    for k, o in run.outs:
+        if o[0] == "h_crashitem":
+            offered = o[1]
+            # (with a strict channel a send to a dead node is dropped without trace, so the check is
+            #  only meaningful when every send is observable)
+            if seen_items < budget and o[1] in ref and not run.collections_disagree() and not run.cfg["strict"]:
+                expect = ref.index(o[1])
+            seen_items += 1
+        elif o[0] == "h_crashreport":
+            if offered != o[1]:
+                out.append((sig(run, kind="crash-report-published-before-the-hook-saw-it"), {"step": k, "test": o[1]}))
+            offered = None
+        elif o[0] == "send" and o[2][0] == "run" and o[2][1] and expect is not None:
+            if o[2][1][0] != expect:
+                out.append((sig(run, kind="requeued-test-not-dispatched-first"),
+                            {"step": k, "expected_index": expect, "sent": o[2][1]}))
+            expect = None
+    return out
+
+
 ALL = {
     "internal_error": mon_internal_error, "stuck": mon_stuck, "exactly_once": mon_exactly_once,
     "crash_reports": mon_crash_reports, "report_fifo": mon_report_fifo, "nextitem": mon_nextitem,
     "groups": mon_groups, "each": mon_each, "agreed_collection": mon_agreed_collection,
     "restart_budget": mon_restart_budget, "stop": mon_stop, "command_stream": mon_command_stream,
-    "steal_protocol": mon_steal_protocol, "no_active": mon_no_active,
+    "steal_protocol": mon_steal_protocol, "no_active": mon_no_active, "requeue": mon_requeue,
 }
 
 
